@@ -119,6 +119,9 @@ class MPSFloatFormat_normalize(Contract):
             'nan': r._isnan == x._isnan,
             'inf': r._isinf == x._isinf,
             'sign': r._real._s == x._real._s,
+            # the zero branch explicitly: normalize(-0) is -0 and normalize(+0) is +0 (a finite zero of the same sign)
+            'zero_sign': implies(fin and x._real._c == 0, r._real._c == 0 and r._real._s == x._real._s
+                                 and not r._isnan and not r._isinf),
             'wf': r._real._c >= 0,
             # B6: value-preserving and canonical
             'B6_value': implies(fin, dy_eqv(r._real, x._real)),
